@@ -1050,12 +1050,12 @@ CONFIGS = [None, None, None, (16, 256), (16, 16), (8, 64), (3, 10), (5, 5), (1, 
            (0, 64)]     # init = 0
 
 
-def random_sessions(res, seed, n_sessions):
+def random_sessions(res, seed, n_sessions, height_only=False):
     """Each session = one real Daemon object, several calls in a row (url_index and the cached height
     carry over), each call against a random script with fault runs of up to ~40 attempts."""
     env = Env()
     cat = Catalogue()
-    rng = rng_for(seed, SUITE, 'random')
+    rng = rng_for(seed, SUITE, 'random-height' if height_only else 'random')
     lines, expect, where = [], [], []
     kinds = {}
     maxrun = 0
@@ -1074,13 +1074,32 @@ def random_sessions(res, seed, n_sessions):
                 where.append((si, -1))
                 canon = [lines[-1]]
                 nontrivial = False
-                for ci in range(rng.choice([1, 2, 3, 5])):
-                    call = rand_call(rng)
-                    p_term = rng.choice([0.5, 0.25, 0.1, 0.04])
-                    atts = [rand_attempt(rng, cat, call, p_term) for _ in range(rng.choice([2, 6, 12, 45]))]
-                    if rng.random() < 0.85:       # make sure most calls end
-                        atts.append(rand_attempt(rng, cat, call, 1.0))
+                hcur = rng.choice([5, 60, 100])
+                for ci in range(rng.choice([2, 3, 5, 8]) if height_only else rng.choice([1, 2, 3, 5])):
+                    if height_only:
+                        # C15: the undo window is sized from cached_height(): it must be the height of the
+                        # last successful getblockcount, also when the daemon's height goes DOWN (fail-over
+                        # to a lagging daemon, invalidateblock) or stays
+                        call = ('H',)
+                        hcur = max(0, hcur + rng.choice([1, 1, 2, 10, 0, 0, -1, -3, -40]))
+                        atts = [rand_attempt(rng, cat, call, 0.0) for _ in range(rng.choice([0, 0, 1, 3]))]
+                        atts.append(('J', (('n',), hcur)))
+                    else:
+                        call = rand_call(rng)
+                        p_term = rng.choice([0.5, 0.25, 0.1, 0.04])
+                        atts = [rand_attempt(rng, cat, call, p_term) for _ in range(rng.choice([2, 6, 12, 45]))]
+                        if rng.random() < 0.85:       # make sure most calls end
+                            atts.append(rand_attempt(rng, cat, call, 1.0))
                     outcome = await run_real(env, cat, d, call, atts)
+                    if height_only and outcome[0] == 'ret':
+                        kinds['height_calls_returned'] = kinds.get('height_calls_returned', 0) + 1
+                        if d.cached_height() != outcome[1] and len(res.violations) < 3:
+                            res.violations.append({
+                                'suite': SUITE, 'clause': 'cached_height',
+                                'detail': f'height() returned {outcome[1]!r} but cached_height() is {d.cached_height()!r} '
+                                          f'(the undo window of C15 is sized from it)',
+                                'case': {'kind': 'lines', 'lines': lines[max(j for j in range(len(lines)) if where[j][1] == -1):]
+                                         + [call_line(call) + ' ; ' + ' '.join(att_wire(cat, a) for a in atts)]}})
                     lines.append(call_line(call) + ' ; ' + ' '.join(att_wire(cat, a) for a in atts))
                     expect.append(canon_line(env, cat, d, cfg, call, outcome))
                     where.append((si, ci))
@@ -1449,6 +1468,19 @@ def run(tier, seed):
     for need in ('ret:value', 'ret:file', 'exc:daemon_error', 'exc:raises', 'exc:file_partial'):
         if not res.stats.get('enum_' + need):
             res.harness_errors.append(f'enumeration never reached {need!r}')
+    return res
+
+
+def run_height(tier, seed):
+    """Entry for C15: sessions of height() calls only, with heights that rise, stay and fall."""
+    res = SuiteResult(SUITE)
+    res.nontrivial = _Counted()
+    res.rule = ('cases = sessions of 2-8 height() calls in a row on one real Daemon object (transient faults in '
+                'between), the daemon height rising, repeating and falling; after every call the cached height is '
+                'compared with the model and must equal the value just returned')
+    kinds = random_sessions(res, seed, 1500 if tier == 'quick' else 20000, height_only=True)
+    if not kinds.get('height_calls_returned'):
+        res.harness_errors.append('no height() call returned')
     return res
 
 
